@@ -360,6 +360,19 @@ def can_self_loop(S, j):
 def sanitize(S):
     """Steer a spec away from the feature conjunctions of OPEN known findings (known_findings.json);
     each rule here corresponds to one open entry, whose pinned reproducer is replayed by every run."""
+    # KF-C: a processor-sharing node whose customers can be blocked (or that customers are blocked into)
+    if any(S["ps"]):
+        S["qcap"] = [INF] * S["n"]
+    # KF-D: exact arithmetic with schedule / slot dates that are not exactly representable in binary
+    if S.get("exact"):
+        for s in S["servers"]:
+            if s["k"] in ("sched", "slot"):
+                key = "ends" if s["k"] == "sched" else "slots"
+                ds = sorted(set(max(0.25, round(d * 4) / 4) for d in s[key]))
+                while len(ds) < len(s[key]):
+                    ds.append(ds[-1] + 1.0)
+                s[key] = ds
+                s["off"] = round(s["off"] * 4) / 4
     blocking = any(q != INF for q in S["qcap"])
     for j, s in enumerate(S["servers"], 1):
         # KF-A: a pre-emptive shift end / capacitated pre-emptive slot interrupting a BLOCKED customer
@@ -428,6 +441,14 @@ def features(S):
             f.add(name)
     if S["tracker"]:
         f.add("tr:" + S["tracker"]["k"])
+    if "ps" in f and "qcap" in f:
+        f.add("ps+blocking")
+    if S.get("exact"):
+        for sj in S["servers"]:
+            if sj["k"] in ("sched", "slot"):
+                ds = list(sj["ends" if sj["k"] == "sched" else "slots"]) + [sj["off"]]
+                if any(d * 4 != int(d * 4) for d in ds):
+                    f.add("exact+nondyadic-schedule")
     if len(S["classes"]) > 1:
         f.add("multiclass")
     if n > 1:
